@@ -516,8 +516,12 @@ where
     #[cfg_attr(feature = "tracing", instrument(skip_all, level = "trace"))]
     fn poll_finish(
         &mut self,
-        _cx: &mut task::Context<'_>,
+        cx: &mut task::Context<'_>,
     ) -> Poll<Result<(), StreamErrorIncoming>> {
+        // A buffer handed over with `send_data` may not be written completely yet, for example
+        // when the future which was driving the write has been dropped. Finishing the stream
+        // now would end it in the middle of a frame.
+        ready!(self.poll_ready(cx))?;
         Poll::Ready(
             self.stream
                 .finish()
